@@ -36,6 +36,7 @@ func checkC20(p *Program, r *Reporter) {
 	if inc != nil {
 		e.ruleAtomicSection(r, "E2-ATOMIC", inc, "app.IPRequestLimiter")
 		intervalRule(p, r, inc)
+		limiterSurfaceRule(p, r, inc)
 	}
 }
 
